@@ -32,13 +32,16 @@ Kinds == {"trait", "event"}
 \* static: _x_changed/_x_fired method; any: _anytrait_changed method; dynamic: obj.on_trait_change(h, "x");
 \* observe: obj.observe(h, "x"); anydyn: obj.on_trait_change(h) (every trait of the object);
 \* decorated: an @observe("x")-decorated method with the magic name _x_changed, defined in a BASE class of the object's class
-Mechs == {"static", "any", "dynamic", "observe", "anydyn", "decorated"}
-Dynamic == {"dynamic", "observe", "anydyn"}          \* registered and removed at run time; the others belong to the class
-Shapes == {"plain", "inherited", "bare"}             \* plain: static + any; inherited: decorated (in a base class) + any; bare: no handler methods
+\* anydyn2: a second obj.on_trait_change(h2) handler (object level, registered after the first)
+Mechs == {"static", "any", "dynamic", "observe", "anydyn", "anydyn2", "decorated"}
+Dynamic == {"dynamic", "observe", "anydyn", "anydyn2"}          \* registered and removed at run time; the others belong to the class
+\* plain: static + any; inherited: decorated (in a base class) + any; bare: no handler methods; wild: as plain, but the
+\* attribute is not declared by name: the class declares the wildcard x_ = <trait> and the names x and x2 both fall under it
+Shapes == {"plain", "inherited", "bare", "wild"}
 ObserveLike(m) == m \in {"observe", "decorated"}
 \* who is registered: cfg.shape decides the class-level handlers, regs (a set of Dynamic) the run-time ones
 Registered(cfg, regs, m) ==
-  CASE m = "static"    -> cfg.shape = "plain"
+  CASE m = "static"    -> cfg.shape \in {"plain", "wild"}
     [] m = "decorated" -> cfg.shape = "inherited"
     [] m = "any"       -> cfg.shape # "bare"
     [] OTHER           -> m \in regs
@@ -46,7 +49,7 @@ Registered(cfg, regs, m) ==
 \* object's list; call_notifiers is guarded by "either list is non-empty".  The trait's list, once created for a dynamic
 \* handler, stays (empty) after the handler is removed: `mat`.  None of this may influence who is called.
 TraitLevel == {"static", "dynamic", "observe", "decorated"}
-ObjectLevel == {"any", "anydyn"}
+ObjectLevel == {"any", "anydyn", "anydyn2"}
 HasNotifiers(cfg, regs) == \E m \in Mechs : Registered(cfg, regs, m)
 
 \* ---- the property's notion of change (the statement of C02)
@@ -95,8 +98,11 @@ SetQuiet(cfg, val, v) ==
 SetQuietThenReject(cfg, val, v) ==
   LET r == SetQuiet(cfg, val, v) IN Out(r.val, "TraitError", NoCalls)
 
+\* "assign1": an assignment while every run-time handler is ONE-SHOT (it removes its own registration when it is called).
+\* Who is called is decided when the assignment is made: a handler unregistering itself (or another) during the
+\* notification takes nobody's call away.
 Apply(op, cfg, val, v, regs) ==
-  CASE op = "assign" -> Assign(cfg, val, v, regs)
+  CASE op \in {"assign", "assign1"} -> Assign(cfg, val, v, regs)
     [] op = "read"   -> Read(cfg, val)
     [] op = "delete" -> Delete(cfg, val, regs)
     [] op = "setq"   -> SetQuiet(cfg, val, v)
@@ -104,4 +110,7 @@ Apply(op, cfg, val, v, regs) ==
     [] op \in {"reg", "unreg"} -> Out(val, "", NoCalls)       \* registration itself calls nobody and changes nothing
 \* registration state after the operation (v names the mechanism for reg / unreg)
 RegsAfter(op, regs, v) == IF op = "reg" THEN regs \cup {v} ELSE IF op = "unreg" THEN regs \ {v} ELSE regs
+\* ... and after a one-shot assignment the run-time handlers that were called are gone
+RegsAfterCalls(op, regs, v, calls) ==
+  IF op = "assign1" THEN regs \ {m \in Dynamic : calls[m] # <<>>} ELSE RegsAfter(op, regs, v)
 =============================================================================
